@@ -145,16 +145,16 @@ def r4(p, rep):
                         break
             rep.add("C03.R4", key, site, ok, why)
     f = p.func("_split_tensors", "frontend.api")
-    binds = [n for n in walk_no_nested(f.node) if isinstance(n, ast.Call) and isinstance(n.func, ast.Attribute) and n.func.attr == "bind"]
+    binds = [(g, n) for g in common.with_helpers(p, f) for n in walk_no_nested(g.node) if isinstance(n, ast.Call) and isinstance(n.func, ast.Attribute) and n.func.attr == "bind"]
     if not binds:
-        raise AnalysisError("unrecognised idiom: no signature.bind(...) in _split_tensors")
-    for call in binds:
+        raise AnalysisError("unrecognised idiom: no signature.bind(...) reachable from _split_tensors")
+    for g, call in binds:
         ok, why = False, "signature.bind is not inside try/except TypeError"
         for t in enclosing_tries(call):
             for h in t.handlers:
                 names = [norm(x) for x in (h.type.elts if isinstance(h.type, ast.Tuple) else [h.type])] if h.type is not None else ["*"]
                 if ("TypeError" in names or "Exception" in names or "*" in names) and block_always_raises(h.body):
-                    kinds = [raised_class(p, f.module, r, f.node) for r in terminal_raises(h.body)]
+                    kinds = [raised_class(p, g.module, r, g.node) for r in terminal_raises(h.body)]
                     if all(k in (("builtin", "TypeError"), ("builtin", "ValueError")) or k[0] == "errors" for k in kinds):
                         ok, why = True, "inside try/except TypeError -> raise TypeError"
         rep.add("C03.R4", f"{f.qualname}:call(bind)", f"{f.module.rel}:{call.lineno}", ok, why)
